@@ -245,7 +245,8 @@ def argcover_rule(R, prefix, only=None):
         # K is the kwargs of the same call
         R.check(isinstance(K, ast.Name), prefix + ".ARGCOVER", key + ":kwargs", site, "keyword arguments are passed to get_args_tuple", "keyword arguments are not passed to get_args_tuple")
         # KEY-NORMALISED: the key function returns the normalised tuple on every path
-        if isinstance(f.node, (ast.FunctionDef,)) and f.name not in ("decorator", "cache_fun") and any(call is x for x in ast.walk(f.node)):
+        dedicated = isinstance(f.node, ast.FunctionDef) and len(q.param_names(f.node)) == 2 and not f.node.args.vararg and not q.has_yield(f.node)
+        if dedicated and f.name not in ("decorator", "cache_fun") and any(call is x for x in ast.walk(f.node)):
             lam = [nn for nn in q.scope_nodes(f.node) if isinstance(nn, ast.Lambda) and any(call is x for x in ast.walk(nn))]
             if not lam:
                 rets = [nn for nn in q.scope_nodes(f.node) if isinstance(nn, ast.Return)]
@@ -269,8 +270,8 @@ def argcover_rule(R, prefix, only=None):
             if g.qualname in checked:
                 continue
             checked.add(g.qualname)
-            if g.name in ("decorator", "cache_fun"):
-                continue
+            if g.name in ("decorator", "cache_fun") or q.has_yield(g.node) or g.node.args.vararg:
+                continue     # the wrapper itself (it legitimately writes the cache); only dedicated key builders are constrained
             local = set(q.param_names(g.node)) | set(n.id for n in q.scope_nodes(g.node) if isinstance(n, ast.Name) and isinstance(n.ctx, ast.Store))
             bad = []
             for n in q.scope_nodes(g.node):
@@ -491,9 +492,14 @@ def run(R):
 
 def _body_call(R, w, ynode, callee, want_args):
     yv = [x for x in ast.walk(ynode.ast) if isinstance(x, ast.Yield)][0].value
-    ok = isinstance(yv, ast.Call) and q.call_name(yv) == callee and [q.src(a) for a in yv.args] + ["**" + q.src(k.value) for k in yv.keywords if k.arg is None] == want_args
-    _, av = closure_assign(w, callee)
-    oka = len(av) == 1 and av[0][0] == "expr" and isinstance(av[0][1], ast.Attribute) and av[0][1].attr == "asynq"
+    ok = isinstance(yv, ast.Call) and [q.src(a) for a in yv.args] + ["**" + q.src(k.value) for k in yv.keywords if k.arg is None] == want_args
+    nm = q.call_name(yv) if isinstance(yv, ast.Call) else None
+    if nm == callee:
+        _, av = closure_assign(w, callee)
+        oka = len(av) == 1 and av[0][0] == "expr" and isinstance(av[0][1], ast.Attribute) and av[0][1].attr == "asynq"
+    else:
+        # the alias was written out: <wrapped>.asynq(...)
+        oka = bool(nm) and nm.endswith(".asynq") and nm.split(".")[0] in ("fn", "fun")
     R.check(ok and oka, "C13.BODY", w.qualname, R.site(w, ynode.ast),
             "on a miss the wrapped function's .asynq is yielded with the caller's arguments (%s)" % ", ".join(want_args),
             "on a miss the wrapper does not yield <wrapped>.asynq(%s)" % ", ".join(want_args))
